@@ -59,6 +59,8 @@ EDITS = {12: _edit_api_plain, 13: _edit_api_template}
 SCRIPTS += [
     ["name e1", "version 1.0", "", "MeasureX | 0", "Dgate(%(f)s) | %(m)s"],
     ["name e2", "version 1.0", "", "Dgate({a}, %(f)s) | %(m)s", "Vac | %(m)s"],
+    ["name p14", "version 1.0", "type tdm (temporal_modes=%(i)s)", "", "int array p0 =", "    %(i)s, %(i)s", "float array p12 =", "    %(f)s, %(f)s", "float array B =", "    %(f)s, %(f)s",
+     "Gate(p0, {a}) | %(m)s", "Rgate(p12, k=B) | %(m)s", "Sgate({a}*2) | %(m)s"],
 ]
 OPS = ["dumps", "to_DiGraph", "attributes", "call", "match_as_template", "match_as_program", "dumps_twice", "graph_then_dumps"]
 
